@@ -301,6 +301,15 @@ func writeIfChanged(path, content string) {
 	}
 }
 
+func lenSection(p *pkgInfo) string {
+	lps := p.lenPlans()
+	have := map[string]bool{}
+	for _, l := range lps {
+		have[l.Type] = true
+	}
+	return leanLenPlans(lps, p.lenAliases(have))
+}
+
 func main() {
 	repo := flag.String("repo", "/repo", "repository")
 	out := flag.String("out", "/verif/lean/DnsModel/Generated", "output directory")
@@ -393,6 +402,7 @@ func main() {
 	tps := p.textPlans()
 	writeIfChanged(filepath.Join(*out, "TextPlans.lean"), "-- GENERATED by /verif/harness/cmd/extract from /repo's scan_rr.go and types.go (do not edit): the RDATA parsers and printers\n-- that use only the idioms of the text algebra (DnsModel/TextCodec.lean), translated into its steps\nimport DnsModel.TextCodecBase\nnamespace Dns.Gen\nopen Dns\n"+leanTextPlans(tps)+"end Dns.Gen\n")
 	writeIfChanged(filepath.Join(*out, "textplans.json"), jsonTextPlans(tps))
+	writeIfChanged(filepath.Join(*out, "LenPlans.lean"), "-- GENERATED by /verif/harness/cmd/extract from /repo's len() methods (ztypes.go, types.go, edns.go) (do not edit): what Len adds\n-- for the RDATA of each type, translated into the steps of DnsModel/LenBase.lean\nimport DnsModel.LenBase\nnamespace Dns.Gen\nopen Dns\n"+lenSection(p)+"end Dns.Gen\n")
 	lt := p.lexTables()
 	if len(failures) > 0 {
 		for _, f := range failures {
